@@ -9,9 +9,12 @@ shape of the three loops).
 The property theorems are in `namespace Gms.C30` below:
 
 * `roundtrip_encode_decode`, `roundtrip_decode_encode`, `representable_converts` – round trips
-* `decode_total_safe`, `replace_total_safe`, `encodeSpec_total_safe`        – no crash
-* `encode_crash_iff`, `encode_eq_spec_partial`, `replace_eq_spec_partial`    – Impl vs. Spec
-* `finding_…`                                                                – the three defects
+* `decode_total_safe`, `encode_total_safe`, `replace_total_safe`, `encodeSpec_total_safe` – no crash
+* `encode_capacity_irrelevant`                                               – `Encode` never reads behind `len(str)`
+* `encode_eq_spec_partial`, `replace_eq_spec_partial`                        – Impl vs. Spec
+* `finding_…`                                                                – the remaining defects
+* `fixed_encode_unrepresentable_tail`, `encodePreFix_crash_iff`, `encodePreFix_tail_repaired`
+                                                                             – the repaired defect (pre-fix model vs. repaired model)
 * `wf_all`, `facts_match`, `loose_entries`                                   – regenerated facts
 -/
 import Gms.Lemmas.RangeMap
@@ -143,7 +146,7 @@ theorem roundtrip_decode_encode {rm : RangeMap} (h : WF rm) (b s extra : List Na
     (hd : decode rm b = .ok s) : encode rm s extra = .ok b ∧ encodeSpec rm s = .ok b := by
   obtain ⟨us, hus, hb, hs⟩ := convLoop_ok_inv _ _ _ _ _ _ _ hd
   subst hb hs
-  have e1 := convLoop_units (encodeRune rm) false rm.inE.length extra
+  have e1 := convLoop_units (encodeRune rm) true rm.inE.length extra
     (us.map fun p => (p.2, p.1))
     (by
       intro p hp
@@ -184,7 +187,7 @@ theorem representable_converts {rm : RangeMap} (h : WF rm) (us : List (List Nat 
     have := convRune_out_pos rm.outE rm.inE Entry.outR Entry.inR Entry.outM Entry.inM h.sOut h.sIn
       (fun e he => he.mIn) h.sub2 p.1 p.2 (henc p hp)
     rw [hnil] at this; simp at this
-  have e1 := convLoop_units (encodeRune rm) false rm.inE.length extra us
+  have e1 := convLoop_units (encodeRune rm) true rm.inE.length extra us
     (fun p hp => encode_isUnit h p.1 p.2 (henc p hp)) [] ((us.map (·.1)).flatten.length + 1) (by simp)
   have e2 := convLoop_units (encodeRuneSpec rm) true rm.inE.length [] us
     (fun p hp => encodeSpec_isUnit h p.1 p.2 (hus p hp)) [] ((us.map (·.1)).flatten.length + 1) (by simp)
@@ -215,6 +218,20 @@ example : encodeSpec Generated.C30.latin1 [104, 0xC3, 0xA9, 108, 108, 111, 0xE2,
 theorem decode_total_safe (rm : RangeMap) (s : List Nat) : decode rm s ≠ .crash :=
   convLoop_guard_no_crash _ _ _ _
 
+/-- **`Encode` never reads behind `len(str)`**: the bytes between `len` and `cap` of the argument
+slice do not influence the result, for any table and any bytes (before the repair the unguarded
+search sliced `str[:n]` up to the capacity, see `fixed_encode_unrepresentable_tail`). -/
+theorem encode_capacity_irrelevant (rm : RangeMap) (s extra : List Nat) :
+    encode rm s extra = encode rm s [] :=
+  convLoop_guard_extra _ _ _ _ _
+
+/-- **`Encode` never panics**, for any table (well-formed or not), any bytes and any spare
+capacity. This is the full statement that finding `encode_unrepresentable_tail` used to refute; it
+holds since the `fix:` commit that added `Decode`'s length guard to `Encode`'s search loop. -/
+theorem encode_total_safe (rm : RangeMap) (s extra : List Nat) : encode rm s extra ≠ .crash := by
+  rw [encode_capacity_irrelevant]
+  exact convLoop_guard_no_crash _ _ _ _
+
 /-- The Spec of `Encode` never panics. -/
 theorem encodeSpec_total_safe (rm : RangeMap) (s : List Nat) : encodeSpec rm s ≠ .crash :=
   convLoop_guard_no_crash _ _ _ _
@@ -226,51 +243,84 @@ theorem replace_total_safe (rm : RangeMap) (s : List Nat) :
 
 /-! ### `Encode` (Impl) vs. Spec -/
 
-/-- Region `encode_unrepresentable_tail`: the search reaches a rest of the string that is shorter
-than the longest unit (`len(rm.inputEntries)`) and has no representable prefix. -/
-def EncodeTailRegion (rm : RangeMap) (s : List Nat) : Prop :=
-  TailAt (encodeRune rm) rm.inE.length s
-
 /-- Region `encode_overflow_unit`: `s` contains a UTF-8 unit that hits an entry whose UTF-8 box
 is larger than its charset box, beyond the charset box. -/
 def OverflowRegion (rm : RangeMap) (s : List Nat) : Prop :=
   ∃ p u t, s = p ++ u ++ t ∧ overflowUnit rm u = true
 
-/-
-Full statement (FALSE for the unchanged code, see `finding_encode_unrepresentable_tail`):
-  theorem encode_total_safe (rm) (s) : encode rm s ≠ .crash
--/
+/-- Outside the overflow region the Go loop computes the Spec (whatever lies behind the slice).
+(The second guard `¬ EncodeTailRegion` this theorem used to need is gone with the repair.)
 
-/-- **`Encode` panics exactly in the tail region** (no spare capacity): the missing length guard
-is the only source of panics, for any table. -/
-theorem encode_crash_iff (rm : RangeMap) (s : List Nat) :
-    encode rm s [] = .crash ↔ EncodeTailRegion rm s :=
+Full statement (FALSE, see `finding_encode_overflow_unit`):
+  theorem encode_eq_spec (h : WF rm) (s) : encode rm s extra = encodeSpec rm s -/
+theorem encode_eq_spec_partial {rm : RangeMap} (h : WF rm) (s : List Nat)
+    (h2 : ¬ OverflowRegion rm s) (extra : List Nat := []) :
+    encode rm s extra = encodeSpec rm s := by
+  rw [encode_capacity_irrelevant]
+  unfold encode encodeSpec
+  apply convLoop_congr
+  intro p u t hs
+  rw [encodeRuneSpec_eq h u]
+  cases ho : overflowUnit rm u with
+  | false => rfl
+  | true => exact absurd ⟨p, u, t, hs, ho⟩ h2
+
+/-- Non-vacuity: unrepresentable / ill-formed units close to the end of the string (the former
+tail region) are outside the overflow region's effect and are reported. -/
+example : encode Generated.C30.latin1 [0xE9] = encodeSpec Generated.C30.latin1 [0xE9] ∧
+    encode Generated.C30.latin1 [97, 0xC4, 0x80, 98] = .fail ∧
+    encode Generated.C30.latin1 [0xC3] [0xA9] = .fail := by decide +kernel
+
+/-! #### The repaired defect `encode_unrepresentable_tail` (pre-fix model `encodePreFix`) -/
+
+/-- Former region `encode_unrepresentable_tail`: the search reaches a rest of the string that is
+shorter than the longest unit (`len(rm.inputEntries)`) and has no representable prefix. -/
+def EncodeTailRegion (rm : RangeMap) (s : List Nat) : Prop :=
+  TailAt (encodeRune rm) rm.inE.length s
+
+/-- Before the repair `Encode` panicked exactly in the tail region (no spare capacity): the
+missing length guard was the only source of panics, for any table. -/
+theorem encodePreFix_crash_iff (rm : RangeMap) (s : List Nat) :
+    encodePreFix rm s [] = .crash ↔ EncodeTailRegion rm s :=
   convLoop_crash_iff _ _ _ _ (by omega)
 
-/-- Outside the two regions the Go loop computes the Spec. -/
-theorem encode_eq_spec_partial {rm : RangeMap} (h : WF rm) (s : List Nat)
-    (h1 : ¬ EncodeTailRegion rm s) (h2 : ¬ OverflowRegion rm s) :
-    encode rm s [] = encodeSpec rm s := by
-  have hc : encode rm s [] ≠ .crash := fun hc => h1 ((encode_crash_iff rm s).1 hc)
-  unfold encode at hc ⊢
+/-- **What the repair changes, for every table and every string**: in the tail region the pre-fix
+loop panicked and the repaired loop reports failure; everywhere else the two agree. -/
+theorem encodePreFix_tail_repaired (rm : RangeMap) (s : List Nat) :
+    (EncodeTailRegion rm s → encodePreFix rm s [] = .crash ∧ encode rm s [] = .fail) ∧
+    (¬ EncodeTailRegion rm s → encodePreFix rm s [] = encode rm s []) := by
+  refine ⟨fun h => ⟨(encodePreFix_crash_iff rm s).2 h, convLoop_tail_fail _ _ _ h⟩, fun h => ?_⟩
+  have hc : encodePreFix rm s [] ≠ .crash := fun hc => h ((encodePreFix_crash_iff rm s).1 hc)
+  unfold encodePreFix at hc ⊢
   rcases convLoop_unguarded_cases (encodeRune rm) rm.inE.length (s.length + 1) s with hcase | hcase
   · exact absurd hcase hc
-  · rw [hcase]
-    unfold encodeSpec
-    apply convLoop_congr
-    intro p u t hs
-    rw [encodeRuneSpec_eq h u]
-    cases ho : overflowUnit rm u with
-    | false => rfl
-    | true => exact absurd ⟨p, u, t, hs, ho⟩ h2
+  · rw [hcase]; rfl
 
-/-- With spare capacity behind the slice, a string of representable characters still converts
-to the same bytes: the over-read can only matter in the tail region. (Instance of
-`representable_converts`, stated for emphasis.) -/
-theorem encode_ignores_capacity {rm : RangeMap} (h : WF rm) (us : List (List Nat × List Nat))
-    (hus : ∀ p ∈ us, encodeRuneSpec rm p.1 = some p.2) (extra : List Nat) :
-    encode rm (us.map (·.1)).flatten extra = encode rm (us.map (·.1)).flatten [] := by
-  rw [(representable_converts h us hus extra).1, (representable_converts h us hus []).1]
+/-- F-C30-a (repaired). Witness of the repaired defect: the pre-fix `Encode` panicked on an
+unrepresentable/ill-formed unit close to the end of the string — latin1, the single byte `E9`
+(reached by `SELECT HEX(CONVERT('é' USING latin1))`); the repaired `Encode` reports failure, as the
+Spec demands. -/
+theorem fixed_encode_unrepresentable_tail :
+    ∃ rm s, WF rm ∧ encodePreFix rm s [] = .crash ∧ encode rm s [] = .fail ∧ encodeSpec rm s = .fail :=
+  ⟨Generated.C30.latin1, [0xE9], wf_of_wfB _ (by decide +kernel), by decide +kernel, by decide +kernel,
+    by decide +kernel⟩
+
+/-- The other witnesses of the finding (`Ā` = `C4 80` at the end / one byte before the end / far
+from the end), pre-fix and repaired. -/
+example : encodePreFix Generated.C30.latin1 [0xC4, 0x80] [] = .crash ∧
+    encodePreFix Generated.C30.latin1 [97, 0xC4, 0x80, 98] [] = .crash ∧
+    encodePreFix Generated.C30.latin1 [0xC4, 0x80, 97, 98, 99] [] = .fail ∧
+    encode Generated.C30.latin1 [0xC4, 0x80] [] = .fail ∧
+    encode Generated.C30.latin1 [97, 0xC4, 0x80, 98] [] = .fail ∧
+    encode Generated.C30.latin1 [0xC4, 0x80, 97, 98, 99] [] = .fail := by decide +kernel
+
+/-- With spare capacity behind the slice the pre-fix loop read bytes that are not part of the
+string: `C3` followed (outside the slice) by `A9` panicked, followed by `00` it did not. The
+repaired loop reports failure in both cases (`encode_capacity_irrelevant`). -/
+example : encodePreFix Generated.C30.latin1 [0xC3] [0xA9] = .crash ∧
+    encodePreFix Generated.C30.latin1 [0xC3] [0, 0, 0] = .fail ∧
+    encode Generated.C30.latin1 [0xC3] [0xA9] = .fail ∧
+    encode Generated.C30.latin1 [0xC3] [0, 0, 0] = .fail := by decide +kernel
 
 /-! ### `EncodeReplaceUnknown` (Impl) vs. Spec -/
 
@@ -315,10 +365,13 @@ theorem loose_entries :
      []] := by
   decide +kernel
 
-/-- Shape of the loops and the list of character sets with an encoder, as read from the source
-(`Encode`'s guard flag is not asserted: the driver's Impl model follows it). -/
+/-- Shape of the loops and the list of character sets with an encoder, as read from the source.
+`encodeHasLengthGuard = true` is the repair of finding `encode_unrepresentable_tail` (the model
+`encode` is the guarded loop): if the guard disappears again this obligation breaks and
+`fixed_encode_unrepresentable_tail` is the replay. -/
 theorem facts_match :
     Generated.C30.decodeHasLengthGuard = true ∧
+    Generated.C30.encodeHasLengthGuard = true ∧
     Generated.C30.loopBounds_Decode = ["len(rm.inputEntries)"] ∧
     Generated.C30.loopBounds_Encode = ["len(rm.inputEntries)"] ∧
     Generated.C30.loopBounds_EncodeReplaceUnknown = ["len(rm.inputEntries)", "len(str)"] ∧
@@ -332,23 +385,7 @@ theorem facts_match :
        "utf16", "utf32", "utf8mb3"] := by
   decide
 
-/-! ### Findings on the unchanged tree (witnesses on the regenerated tables) -/
-
-/-- F-C30-a. `Encode` panics on an unrepresentable/ill-formed unit close to the end of the
-string: latin1, the single byte `E9` (reached by `SELECT HEX(CONVERT('é' USING latin1))`), and
-the character `Ā` (`C4 80`). The Spec reports failure. -/
-theorem finding_encode_unrepresentable_tail :
-    ∃ rm s, WF rm ∧ encode rm s [] = .crash ∧ encodeSpec rm s = .fail :=
-  ⟨Generated.C30.latin1, [0xE9], wf_of_wfB _ (by decide +kernel), by decide +kernel, by decide +kernel⟩
-
-example : encode Generated.C30.latin1 [0xC4, 0x80] [] = .crash ∧
-    encode Generated.C30.latin1 [97, 0xC4, 0x80, 98] [] = .crash ∧
-    encode Generated.C30.latin1 [0xC4, 0x80, 97, 98, 99] [] = .fail := by decide +kernel
-
-/-- With spare capacity behind the slice the same loop reads bytes that are not part of the
-string: `C3` followed (outside the slice) by `A9` panics, followed by `00` it does not. -/
-example : encode Generated.C30.latin1 [0xC3] [0xA9] = .crash ∧
-    encode Generated.C30.latin1 [0xC3] [0, 0, 0] = .fail := by decide +kernel
+/-! ### Findings on the current tree (witnesses on the regenerated tables) -/
 
 /-- `Encode` accepts UTF-8 encoded surrogates (utf16) / code points beyond U+10FFFF (utf32) and
 produces bytes that do not decode back. -/
@@ -378,9 +415,11 @@ def sqlHexConvertImpl (rm : RangeMap) (s : List Nat) : Res :=
 /-- What the statement means: the hex of the converted string. -/
 def sqlHexConvertSpec (rm : RangeMap) (s : List Nat) : Res := replaceSpec rm s
 
-/-- Region `sql_convert_using_not_decoded`: `é` in latin1 panics, `a` in utf16 is encoded twice. -/
+/-- Region `sql_convert_using_not_decoded`: `é` in latin1 is an error (`HEX` cannot re-encode the
+byte `E9`; before the repair of `encode_unrepresentable_tail` it panicked), `a` in utf16 is encoded
+twice. -/
 theorem finding_sql_convert_using_not_decoded :
-    (sqlHexConvertImpl Generated.C30.latin1 [0xC3, 0xA9] = .crash ∧
+    (sqlHexConvertImpl Generated.C30.latin1 [0xC3, 0xA9] = .fail ∧
       sqlHexConvertSpec Generated.C30.latin1 [0xC3, 0xA9] = .ok [0xE9]) ∧
     (sqlHexConvertImpl Generated.C30.utf16 [97] = .ok [0, 0, 0, 97] ∧
       sqlHexConvertSpec Generated.C30.utf16 [97] = .ok [0, 97]) := by decide +kernel
@@ -396,18 +435,21 @@ example : sqlHexConvertImpl Generated.C30.latin1 [97, 98] = sqlHexConvertSpec Ge
   decide +kernel
 
 /-- Region `sql_unrepresentable_stored`: a column value is kept as given; `HEX(c)`/`LENGTH(c)` call
-`Encode` on it. For `Ā` in a latin1 column the Spec says "not representable" (the statement must
-reject or replace it) while the stored value makes `Encode` panic. -/
+`Encode` on it. For `Ā` in a latin1 column the Spec says "not representable" (the INSERT must
+reject or replace it) while the engine stores it unchanged (`INSERT` ok, `SELECT c` returns `Ā`) and
+only `HEX(c)`/`LENGTH(c)` fail later, with the error `Encode` reports (before the repair of
+`encode_unrepresentable_tail` they panicked). -/
 theorem finding_sql_unrepresentable_stored :
     encodeSpec Generated.C30.latin1 [0xC4, 0x80] = .fail ∧
-    encode Generated.C30.latin1 [0xC4, 0x80] [] = .crash := by decide +kernel
+    encode Generated.C30.latin1 [0xC4, 0x80] [] = .fail ∧
+    encodePreFix Generated.C30.latin1 [0xC4, 0x80] [] = .crash := by decide +kernel
 
 /-- Outside the region (the value is representable): `HEX(c)` is the Spec's encoding and the
 round trip through the column holds — `encode_eq_spec_partial` + `roundtrip_encode_decode`. -/
 theorem sqlColumn_partial {rm : RangeMap} (h : WF rm) (s b : List Nat) (hs : encodeSpec rm s = .ok b)
-    (h1 : ¬ EncodeTailRegion rm s) (h2 : ¬ OverflowRegion rm s) :
+    (h2 : ¬ OverflowRegion rm s) :
     encode rm s [] = .ok b ∧ decode rm b = .ok s :=
-  ⟨by rw [encode_eq_spec_partial h s h1 h2, hs], roundtrip_encode_decode h s b hs⟩
+  ⟨by rw [encode_eq_spec_partial h s h2, hs], roundtrip_encode_decode h s b hs⟩
 
 /-- Non-vacuity of the partial theorems: a string with an unrepresentable character far from
 the end is outside the regions' effect (Impl = Spec = report / one `?`). -/
